@@ -21,6 +21,7 @@ EXPLANATION = (
     "cumulative sum in that order, every row reported; bandwidth: zero-length copies get dur 1 BEFORE the end timestamp ts+dur is formed, end rows carry "
     "the negated bandwidth, per-name cumsum over the ts-sorted concat; counter events add back exactly the attribute _align_all_ranks subtracted, phase C, "
     "args {counter: value}; the wrapper passes the column names the series functions produce."
+    " Later additions: the stream reaches the event conversion as 'id'; every series row becomes one counter event; effect rules incl. per-rank containers in the wrapper."
 )
 TC = "hta.analyzers.trace_counters"
 LAUNCH_NAMES_REQUIRED = {"cudaLaunchKernel", "cudaLaunchKernelExC", "cuLaunchKernel", "cudaMemcpyAsync", "cudaMemsetAsync",
